@@ -7,7 +7,7 @@ WORLD_ASSUME = [
 ]
 
 CHECKS["C10"] = dict(
-    pkg="cluster", tests=[T("TestC10", 60, 24000, shrinktime="60s")], level="fault_enumeration",
+    pkg="cluster", tests=[T("TestC10", 60, 24000, shrinktime="60s", timeout_q=1800)], level="fault_enumeration",
     technique="stateful property-based testing (rapid) on the un-mocked cluster world with single-fault injection; oracle = harness's own sum over recorded workloads vs. the raw plugin record",
     rule="history of 2-9 cluster API calls (create with all strategies/filters, remove, dissociate, realloc, replace, set-node, node-resource; 45% of ops with one injected (call class, k-th occurrence) fault; 15% parallel batches of 2-3 calls) after a generated setup; after every action and quiescence: usage == sum of workloads per node in CPU/per-core/memory/NUMA memory, usage <= capacity per core and memory, NodeResource reports no diffs. Non-trivial = a fault actually fired or a parallel batch ran; distinct by hash of the case",
     level_text="Random histories with single-fault placement by (call class, occurrence) against an independent bookkeeping oracle on the raw etcd record. Sampled, not exhaustive: fault positions are drawn, interleavings of parallel batches are whatever the Go scheduler does.",
@@ -15,7 +15,7 @@ CHECKS["C10"] = dict(
     design_ref="DESIGN.md §3, §4 C10", assumptions=WORLD_ASSUME)
 
 CHECKS["C11"] = dict(
-    pkg="cluster", tests=[T("TestC11", 120, 40000, shrinktime="60s")], level="fault_enumeration",
+    pkg="cluster", tests=[T("TestC11", 120, 40000, shrinktime="60s", timeout_q=1800)], level="fault_enumeration",
     technique="fault enumeration driven by rapid: the operation is run fault-free to record its steps, the world is restored (raw etcd dump + engine state), and re-run with one injected failure at a recorded step (quick: one drawn step; thorough: 30% of cases iterate every step)",
     rule="generated setup + fault-free prefix, then one of create/remove/dissociate/realloc/replace/add-node/remove-node/set-node with the fault at a step of its own recorded step list; oracle: every metadata key (/pod /node /workloads /deploy /resource) and engine container (existence, running, engine params) that differs from the pre-state must be explained by a part of the call that reported success; usage oracle on every node. Non-trivial = the fault fired and the call (or a part) reported failure, or the operation failed on its own; distinct by hash of the case",
     level_text="Every step an operation actually performs is a candidate fault position (recorded, not guessed); the thorough tier enumerates all positions for a third of the cases. States and requests are random.",
@@ -23,7 +23,7 @@ CHECKS["C11"] = dict(
     design_ref="DESIGN.md §4 C11", assumptions=WORLD_ASSUME)
 
 CHECKS["C12"] = dict(
-    pkg="cluster", tests=[T("TestC12", 120, 40000, shrinktime="60s")], level="fault_enumeration",
+    pkg="cluster", tests=[T("TestC12", 120, 40000, shrinktime="60s", timeout_q=1800)], level="fault_enumeration",
     technique="fault enumeration driven by rapid on create: fault-free run checked, world restored, re-run with one engine/store failure at a recorded step; message-level oracle against store, engine and usage",
     rule="generated setup + prefix + create request; planned instance count from the capacity API on the same state (count for AUTO/GLOBAL/DRAINED); oracle: stream closes; either one failure and nothing created or exactly one message per planned instance; each success is recorded, has a running container on the reported node with the reported resources; each failure leaves no record/container; no stray containers or records; usage oracle. Non-trivial = >= 2 planned instances or a fault that fired",
     level_text="Random requests over random states, every engine/store step of the recorded run is a candidate fault position (thorough enumerates all for a quarter of the cases).",
@@ -31,7 +31,7 @@ CHECKS["C12"] = dict(
     design_ref="DESIGN.md §4 C12", assumptions=WORLD_ASSUME)
 
 CHECKS["C20"] = dict(
-    pkg="cluster", tests=[T("TestC20", 150, 60000, shrinktime="60s")], level="exploration",
+    pkg="cluster", tests=[T("TestC20", 150, 60000, shrinktime="60s", timeout_q=1800)], level="exploration",
     technique="property-based testing (rapid) on the un-mocked cluster world; oracle = per-goroutine lock-order invariant over the recorded distributed-lock events",
     rule="two pods with nodes spread across them, two prefix deployments, then 1-5 operations among create/remove/dissociate/realloc/replace/control/send/set-node/remove-node/remove-pod/capacity/node-resource/pod-resource with include lists in any order, with repeats and across pods, and unsorted workload id lists with duplicates; every CreateLock/Lock/Unlock is recorded with its goroutine; invariant: pod locks before workload locks, strictly ascending keys within a class, node-operation locks only with nothing held and nothing acquired while one is held. Non-trivial = an operation held >= 2 locks at once; distinct by hash of the case",
     level_text="Random search over operations and filters; the invariant is checked on the real lock calls of the real code paths (including the asynchronous remap).",
@@ -39,7 +39,7 @@ CHECKS["C20"] = dict(
     design_ref="DESIGN.md §4 C20", assumptions=WORLD_ASSUME)
 
 CHECKS["C21"] = dict(
-    pkg="cluster", tests=[T("TestC21", 250, 80000, shrinktime="30s")], level="exploration",
+    pkg="cluster", tests=[T("TestC21", 250, 80000, shrinktime="30s", timeout_q=1800)], level="exploration",
     technique="property-based testing (rapid) on the un-mocked world with both metadata stores; oracle = reference selection written from the statement vs. the node set CalculateCapacity(DUMMY, empty request) offers",
     rule="1-2 pods, 1-5 nodes that are test nodes or non-test nodes with/without a heartbeat status, optionally bypassed, with label sets; filter = include list (repeats, any order, missing names) or pod/any-pod with excludes, label filter, all flag; 30% on the Redis store. Non-trivial = include list with a repeat, or a down/bypassed node exists; distinct by hash of the case",
     level_text="Random search over filters and pod states on both back ends against an independent reference; both directions (dropped and extra nodes) are decided.",
@@ -47,7 +47,7 @@ CHECKS["C21"] = dict(
     design_ref="DESIGN.md §4 C21", assumptions=WORLD_ASSUME)
 
 CHECKS["C13"] = dict(
-    pkg="cluster", tests=[T("TestC13", 150, 40000, shrinktime="60s")], level="exploration",
+    pkg="cluster", tests=[T("TestC13", 150, 40000, shrinktime="60s", timeout_q=1800)], level="exploration",
     technique="property-based testing (rapid) on the un-mocked world with both metadata stores; an observer runs Store.GetDeployStatus at every intercepted step of a really concurrent deployment while no store/plugin/engine call is in flight (history invariant), plus a post-condition on counts and raw processing keys",
     rule="generated setup (45% Redis store on miniredis), a prior deployment of the same application entrypoint, then the observed deployment (all strategies/filters/resources), 60% with one injected engine/store/WAL failure at the k-th call of a class; invariant at every observation and node: recorded <= status <= prior + planned (planned = the count core passes to CreateProcessing); afterwards status == recorded and no /processing key exists (raw etcd prefix read / miniredis KEYS). Non-trivial = >= 5 observations with a marker present and (an instance failed or >= 2 messages); distinct by hash of the case",
     level_text="Random deployments observed at every step boundary of the real concurrent code, on both back ends; the schedule between steps is the Go scheduler's.",
@@ -55,7 +55,7 @@ CHECKS["C13"] = dict(
     design_ref="DESIGN.md §3.2, §4 C13", assumptions=WORLD_ASSUME)
 
 CHECKS["C14"] = dict(
-    pkg="cluster", tests=[T("TestC14", 50, 16000, shards=32, shrinktime="90s")], level="fault_enumeration",
+    pkg="cluster", tests=[T("TestC14", 50, 16000, shards=32, shrinktime="90s", timeout_q=1800)], level="fault_enumeration",
     technique="crash-point enumeration driven by rapid: the deployment is recorded fault-free, the world restored, and re-run with the old instance frozen at a recorded step (before it takes effect, or after it took effect but before the caller sees the result); leases revoked, a new Calcium on the same store/WAL file/engine runs DisasterRecover; oracle on store, engine and usage",
     rule="generated setup, optional prefix, one deployment (1-4 nodes, 1-4 instances, all strategies), crash position drawn from the recorded steps plus 'after the last step' (thorough: 20% of the cases iterate every position in both flavours). After recovery: usage == sum of workloads on every node, no /processing key, every new recorded workload has a running container, pre-existing workloads/containers untouched, unrecorded containers only where the dying instance had created one without having logged it. Non-trivial = crash strictly between the first allocation and the last commit; distinct by hash of the case",
     level_text="Every externally visible step of the recorded deployment is a candidate crash point, in two flavours; sampled in quick, enumerated for a fifth of the cases in thorough. Crash = no further effect of the old process; torn writes inside etcd/bbolt are out of scope.",
@@ -63,7 +63,7 @@ CHECKS["C14"] = dict(
     design_ref="DESIGN.md §3.2, §4 C14", assumptions=WORLD_ASSUME + ["the old instance's locks and sessions are gone when recovery runs (all etcd leases revoked)"])
 
 CHECKS["C29"] = dict(
-    pkg="cluster", tests=[T("TestC29", 150, 40000, shrinktime="45s")], level="exploration",
+    pkg="cluster", tests=[T("TestC29", 150, 40000, shrinktime="45s", timeout_q=1800)], level="exploration",
     technique="property-based testing (rapid) with scripted engine faults: file transfers through the real rpc.Vibranium.Send (bufconn, real chunking) and through Calcium.SendLargeFile with harness chunking, against the fake engine's record of what was written",
     rule="1-4 workloads, 1-4 targets (existing / missing / duplicated ids), per-target engine script (read all / fail at once / fail after k bytes), file size in {0, 1, chunk-1, chunk, chunk+1, 2 chunks, 11 chunks+3, 13 chunks, 24 chunks+1, random <= 64 KiB}, uid/gid/mode, 1-2 files (rpc) or one file with chunk size in {1,7,100,512,2048,4096} (direct); oracle: the call finishes (10 s watchdog against milliseconds, retried once), exactly one result per distinct target and file, successes hold byte-identical content with the requested owner and mode, failures are reported for missing/failing targets only. Non-trivial = size > 1 chunk or a missing/failing/duplicated target; distinct by hash of the case",
     level_text="Random search over sizes, target sets and engine behaviours on the real code paths (gRPC front end included).",
@@ -71,7 +71,7 @@ CHECKS["C29"] = dict(
     design_ref="DESIGN.md §4 C29", assumptions=WORLD_ASSUME)
 
 CHECKS["C30"] = dict(
-    pkg="cluster", tests=[T("TestC30", 150, 40000, shrinktime="45s")], level="exploration",
+    pkg="cluster", tests=[T("TestC30", 150, 40000, shrinktime="45s", timeout_q=1800)], level="exploration",
     technique="property-based testing (rapid) with scripted engine outcomes for logs / attach / wait and optional create-time faults on the un-mocked world; oracle on the message stream, the store, the fake engine, the raw usage record and a scan of the bbolt WAL file",
     rule="RunAndWait with count 1-3 (stdin only with count 1), per-container script: 0-6 (10%: 300+) stdout lines, 0-3 stderr lines, exit code in {0,1,2,137,255}, or a failure to fetch logs / attach / wait; 25% with one injected create-time failure; oracle: stream closes (30 s watchdog, retried once); per workload the exit code (or the engine error) is the last message and every scripted line arrived intact before it; afterwards no workload record, no container, usage equal to the pre-call record, WAL file holds no event. Non-trivial = count >= 2 or an engine/create failure; distinct by hash of the case",
     level_text="Random requests and engine outcomes on the real lambda path including its asynchronous clean-up; WAL state is read from the file with the exported kv.Lithium after closing the instance.",
